@@ -87,13 +87,6 @@ pub fn min(a: usize, b: usize) -> (r: usize) ensures r == (if a <= b { a } else 
 pub open spec fn spec_next_closes(blocks: Seq<Block>) -> bool {
     blocks.len() > 0 && (blocks[0] matches Block::Flags(f) && f.end_stream)
 }
-// the number of octets of the chunk that go out now (None: stall)
-pub open spec fn spec_take(len: int, window: i32, max_frame_size: usize) -> Option<int> {
-    if spec_fits_window(len as usize, window) && max_frame_size >= len { Some(len) }
-    else if window > 0 { Some(if (max_frame_size as int) <= window { max_frame_size as int } else { window as int }) }
-    else { None }
-}
-
 pub struct H2BlockConverter {
     pub max_frame_size: usize,
     pub window: i32,
@@ -111,33 +104,38 @@ impl H2BlockConverter {
     //@  cut "Block::Flags(Flags {\n                end_header,\n                end_stream," .. "\n        true\n    }" => ""
     //@  resubst "i32::try_from\\(payload_len\\)\\s*\\.is_ok_and\\(\\|pl\\| ([^()]*)\\)" => "(match verif_try_i32(payload_len) { Some(pl) => \\1, None => false })"
     //@  resubst "i32::try_from\\(payload_len\\)\\s*\\.unwrap_or\\(([^()]*)\\)" => "(match verif_try_i32_u32(payload_len) { Some(verif_v) => verif_v, None => \\1 })"
-    //@  substall "self.window.max(0)" => "verif_i32_max(self.window, 0)"
+    //@  optsubst "self.window.max(0)" => "verif_i32_max(self.window, 0)"
     //@  requires
-    //@    old(self).max_frame_size < 0x100_0000,
+    //@    0 < old(self).max_frame_size < 0x100_0000,
     //@    data@.len() <= usize::MAX,
     //@  ensures
     //@    final(self).max_frame_size == old(self).max_frame_size && final(self).stream_id == old(self).stream_id,
-    //@    spec_take(data@.len() as int, old(self).window, old(self).max_frame_size) matches Some(n) ==> {
-    //@        &&& 0 <= n <= data@.len() && n <= old(self).max_frame_size
-    //@        &&& (n > 0 ==> n <= old(self).window)
-    //@        &&& final(self).window == old(self).window - n
-    //@    },                                                                                        // [a-data-frame-never-exceeds-max-frame-size-nor-the-send-window-and-debits-it-exactly]
-    //@    spec_take(data@.len() as int, old(self).window, old(self).max_frame_size) matches Some(n) ==> {
-    //@        &&& final(kawa).out@ =~= old(kawa).out@
-    //@              + spec_wire(FrameHeader { payload_len: n as u32, frame_type: FrameType::Data, flags: 0, stream_id: old(self).stream_id })
-    //@              + data@.subrange(0, n)
-    //@        &&& (n == data@.len() ==> final(kawa).blocks@ == old(kawa).blocks@)
-    //@        &&& (n < data@.len() ==> final(kawa).blocks@.len() == old(kawa).blocks@.len() + 1
-    //@               && final(kawa).blocks@.subrange(1, final(kawa).blocks@.len() as int) =~= old(kawa).blocks@
-    //@               && (final(kawa).blocks@[0] matches Block::Chunk(c) && c.data@ == data@.subrange(n, data@.len() as int)))
-    //@    },                                                                                        // [the-octets-sent-are-a-prefix-of-the-chunk-and-the-rest-goes-back-to-the-front]
-    //@    spec_take(data@.len() as int, old(self).window, old(self).max_frame_size) is None ==> {
-    //@        &&& !r && final(self).window == old(self).window && final(kawa).out@ == old(kawa).out@
-    //@        &&& final(kawa).blocks@.len() == old(kawa).blocks@.len() + 1
-    //@        &&& final(kawa).blocks@.subrange(1, final(kawa).blocks@.len() as int) =~= old(kawa).blocks@
-    //@        &&& (final(kawa).blocks@[0] matches Block::Chunk(c) && c.data@ == data@)
-    //@    },                                                                                        // [a-stalled-chunk-is-put-back-whole-and-nothing-is-sent]
+    //@    ({
+    //@        let n = old(self).window - final(self).window;      // the octets debited from the send window
+    //@        0 <= n <= data@.len() && n <= old(self).max_frame_size && (n > 0 ==> n <= old(self).window)
+    //@    }),                                                                                       // [what-is-debited-never-exceeds-max-frame-size-the-send-window-or-the-chunk]
+    //@    ({
+    //@        let n = old(self).window - final(self).window;
+    //@        let l = data@.len() as int;
+    //@        ||| ({   // one DATA frame of exactly the n octets debited, the rest back to the front
+    //@              &&& final(kawa).out@ =~= old(kawa).out@
+    //@                    + spec_wire(FrameHeader { payload_len: n as u32, frame_type: FrameType::Data, flags: 0, stream_id: old(self).stream_id })
+    //@                    + data@.subrange(0, n)
+    //@              &&& (n == l ==> final(kawa).blocks@ == old(kawa).blocks@)
+    //@              &&& (n < l ==> final(kawa).blocks@.len() == old(kawa).blocks@.len() + 1
+    //@                     && final(kawa).blocks@.subrange(1, final(kawa).blocks@.len() as int) =~= old(kawa).blocks@
+    //@                     && (final(kawa).blocks@[0] matches Block::Chunk(c) && c.data@ == data@.subrange(n, l)))
+    //@            })
+    //@        ||| ({   // a stall: nothing sent, nothing debited, the chunk put back whole; only without window
+    //@              &&& n == 0 && !r && old(self).window <= 0 && final(kawa).out@ == old(kawa).out@
+    //@              &&& final(kawa).blocks@.len() == old(kawa).blocks@.len() + 1
+    //@              &&& final(kawa).blocks@.subrange(1, final(kawa).blocks@.len() as int) =~= old(kawa).blocks@
+    //@              &&& (final(kawa).blocks@[0] matches Block::Chunk(c) && c.data@ == data@)
+    //@            })
+    //@    }),                                                                                       // [the-octets-sent-are-the-debited-prefix-of-the-chunk-the-rest-goes-back-to-the-front-a-stall-keeps-it-whole]
+    //@    (old(self).window > 0 && data@.len() > 0) ==> old(self).window - final(self).window > 0, // [with-window-left-at-least-one-octet-moves]
     //@    (spec_fits_window(data@.len() as usize, old(self).window) && old(self).max_frame_size >= data@.len()
+    //@        && final(self).window == old(self).window - data@.len()
     //@        && (!(old(self).incremental_mode && old(self).incremental_peer_count > 1) || spec_next_closes(final(kawa).blocks@))) ==> r, // [a-stream-without-incremental-peers-or-about-to-close-never-yields-after-a-whole-chunk]
     //@end
 }
